@@ -19,7 +19,7 @@ def facts(c):
 
 def run(a):
     c = Check(PID, a.tier, a.seed)
-    c.cov["rule"] = ("op lines: enc/dec (correspondence), rt/ord/pfx/snd (property oracle evaluated on each side's own functions); "
+    c.cov["rule"] = ("op lines: enc/dec (correspondence), rt/ord/pfx/snd (property oracle evaluated on each side's own functions), apd (append contract on the implementation: every rt case is also encoded into a recycled destination buffer with a content prefix, spare capacity and stale fill bytes); "
                      "exhaustive byte strings over {00,01,7F,80,FE,FF} up to length 4 (quick) / 6 (thorough), integers around sign/byte/varint "
                      "boundaries, seeded random, and a malformed stream (truncated, bad marker/padding/tag, over-long varint); "
                      "distinct = distinct op lines")
